@@ -523,6 +523,7 @@ pub fn run_c05(ctx: &Ctx) -> ! {
     inputs.extend(short_messages(64).into_iter().filter(|(_, b)| b.len() > limit));
     inputs.extend(corpus());
     inputs.extend(grid_messages());
+    inputs.extend(tricky_text_wire(&MULTIBYTE_LENS));
     let nbytes = tier.pick(1u32, 2u32);
     for l in 0..=nbytes {
         for v in 0..(256u64.pow(l)) {
@@ -918,7 +919,7 @@ pub fn run_c07(ctx: &Ctx) -> ! {
     );
     let tier = ctx.tier;
     let mut msgs: Vec<(String, Vec<u8>)> = vec![];
-    for (name, bytes) in short_messages(64).into_iter().chain(corpus()) {
+    for (name, bytes) in short_messages(64).into_iter().chain(corpus()).chain(tricky_text_wire(&[70, 255, 300])) {
         if let Ok(m) = r1::decode(&bytes) {
             let head = bytes[..bytes.len() - m.data.len()].to_vec();
             if head.len() <= 1200 {
